@@ -11,9 +11,11 @@
     visible premises: [obj_codec_ok], [coll_codec_ok], [path_ok], [hdr_meta_ok],
     [hdr_loc_ok] say that the codecs round-trip the values of THIS input (the oracle
     evaluates the same predicates on every case with the real functions' graphs). *)
-From GW Require Import Base ObjXml Objects ObjRfc ObjCheck ObjectsProofs ObjectsE2E.
+From GW Require Import Base ObjXml Objects ObjRfc ObjCheck ObjectsProofs ObjectsE2E ObjectsReader ObjectsVariants.
+From Coq Require Import Permutation.
 
 Local Open Scope Z_scope.
+Local Open Scope list_scope.
 
 (** ** REPORT calendar-query / addressbook-query *)
 Theorem C10_query : forall cd fl principal os,
@@ -74,3 +76,52 @@ Theorem C10_put_failure : forall cd hd fl reqpath data c d p b,
   e2e_put cd hd fl reqpath data (Failed c d p) = (CHttp (fail_code c), Some data).
 Proof. exact put_failure. Qed.
 Print Assumptions C10_put_failure.
+
+(** ** The servers' multi-status bodies under an independent RFC 4918 reader
+    [rfc4918_read_multistatus] (ObjRfc.v) is written from RFC 4918 section 14, not from the
+    Go code.  [chunks_ok P xs T]: the table [T] is one chunk of rows per element of [xs], in
+    order, each chunk as [P] says; [object_rows] / [collection_rows]: a permutation of one
+    row (href, property element, status) per requested name, with the value and status the
+    RFCs prescribe ([spec_object_answer], [spec_collection_answer]).  [href_ok p]: the
+    href written for [p] is not empty. *)
+Theorem C10_independent_reader_query : forall cd fl principal req os,
+  req <> [] -> (forall o, In o os -> href_ok cd (o_path o)) ->
+  exists T, rfc4918_read_multistatus (server_query cd fl principal req os) = Some T
+            /\ chunks_ok (object_rows cd fl principal req) os T.
+Proof. exact reader_query. Qed.
+Print Assumptions C10_independent_reader_query.
+
+Theorem C10_independent_reader_multiget : forall cd fl principal req backend hrefs,
+  req <> [] -> (forall h, In h hrefs -> multiget_href_ok cd backend h) ->
+  exists T, rfc4918_read_multistatus (server_multiget cd fl principal req backend hrefs) = Some T
+            /\ chunks_ok (multiget_rows cd fl principal req backend) hrefs T.
+Proof. exact reader_multiget. Qed.
+Print Assumptions C10_independent_reader_multiget.
+
+Theorem C10_independent_reader_listing : forall cd fl principal req c os,
+  req <> [] -> href_ok cd (c_path c) -> (forall o, In o os -> href_ok cd (o_path o)) ->
+  exists T0 T, rfc4918_read_multistatus (server_propfind_collection cd fl principal req c os) = Some (T0 ++ T)
+               /\ collection_rows cd fl principal req c T0 /\ chunks_ok (object_rows cd fl principal req) os T.
+Proof. exact reader_propfind_collection. Qed.
+Print Assumptions C10_independent_reader_listing.
+
+Theorem C10_independent_reader_discovery : forall cd fl principal home req cs,
+  req <> [] -> href_ok cd home -> (forall c, In c cs -> href_ok cd (c_path c)) ->
+  exists T0 T, rfc4918_read_multistatus (server_propfind_homeset cd fl principal home req cs) = Some (T0 ++ T)
+               /\ chunks_ok (collection_rows cd fl principal req) cs T.
+Proof. exact reader_find. Qed.
+Print Assumptions C10_independent_reader_discovery.
+
+(** ** Known finding C10-foreign-namesake (known_findings.json) is real: two conformant
+    layouts of one content (the second holds an extension element {urn:x}href, which RFC
+    4918 section 17 tells a reader to ignore) are read differently by SyncCollection. *)
+Theorem C10_foreign_namesake_refuted :
+  foreign_namesake kf_doc_plain kf_doc_namesake = true
+  /\ wdoc_rfc_ok kf_doc_plain = true /\ wdoc_rfc_ok kf_doc_namesake = true
+  /\ same_content_b toy_codecs (known_for Card CallSync) kf_doc_plain kf_doc_namesake = true
+  /\ run_call toy_codecs Card CallSync "/coll/" (rfc_write kf_doc_plain)
+     = RSync (COk ("t1"%string, [], ["/a"%string]))
+  /\ run_call toy_codecs Card CallSync "/coll/" (rfc_write kf_doc_namesake)
+     = RSync (COk ("t1"%string, [], ["/b"%string; "/a"%string])).
+Proof. exact foreign_namesake_refuted. Qed.
+Print Assumptions C10_foreign_namesake_refuted.
